@@ -643,6 +643,11 @@ func (c *FnCtx) typeAssert(fr *Frame, st *State, x *ssa.TypeAssert) {
 			stc = &State{pc: ts.And(st.pc, ok), wm: st.wm}
 		}
 		c.readFacts(stc, val, x.AssertedType)
+		if _, isMap := x.AssertedType.Underlying().(*types.Map); isMap {
+			// domain assumption: an interface value never holds a nil map (decoders and literals never produce one)
+			c.trusted["domain: interface values never hold a typed nil map"] = true
+			c.addFact(stc, c.eng.ts.Gt(val, c.eng.ts.Int(0)))
+		}
 	}
 }
 
